@@ -37,7 +37,10 @@ class Edit:
 def _func_span(src: str, func: Optional[str]) -> Optional[Tuple[int, int]]:
     if func is None:
         return 0, len(src)
-    tree = ast.parse(src)
+    import warnings
+    with warnings.catch_warnings():
+        warnings.simplefilter('ignore')
+        tree = ast.parse(src)
     parts = func.split('.')
     node = tree
     for pname in parts:
